@@ -1143,7 +1143,7 @@ pub fn chk_branch_at(code: &[u8], total: usize, at: usize, want: Insn) {
     crate::vp_check!(code.len() == 4 * total, "number of emitted instruction words");
     let got = decode(word_at(code, at));
     crate::vp_note!("{} got {:?} want {:?}", words_note(code), got, want);
-    crate::vp_check!(got == want, "the branch decodes to the requested branch landing on the label");
+    crate::vp_check!(got == want, "requested branch landing on the label");
 }
 /// CBZ/CBNZ/TBZ/TBNZ pair at word `at`: either [requested branch to `dist`, NOP] or
 /// [inverted branch over the next word, B to `dist`] (dist in bytes from the first word)
@@ -1291,7 +1291,7 @@ pub fn chk_cb_bound(code: &[u8], at: usize, want: Insn, dist: i64) {
     direct.imm = dist;
     let one = code.len() == 4 * (at + 1) && decode(word_at(code, at)) == direct;
     let two = code.len() == 4 * (at + 2) && n >= 2 && lands_pair(code, at, want, dist) && decode(word_at(code, at + 1)).op == Op::B;
-    crate::vp_check!(one || two, "compare-and-branch (or inverted branch over B) lands on the label");
+    crate::vp_check!(one || two, "branch or inverted pair lands on the label");
 }
 /// label unbound at the call: two words reserved
 pub fn chk_cb_unbound(code: &[u8], total: usize, want: Insn, dist: i64) {
@@ -1488,7 +1488,7 @@ crate::vp_harness!(mov_imm, unwind = 66, |s| {
     crate::vp_note!("{} value {:x?} want {:x}", words_note(&code), v, imm as u64);
     crate::vp_check!(code.len() % 4 == 0 && n >= 1 && n <= 4, "one to four instruction words");
     crate::vp_check!(qd != R::Sp, "a wide move cannot target SP");
-    crate::vp_check!(v == Some(imm as u64), "the move-wide sequence leaves the requested 64-bit constant in rd");
+    crate::vp_check!(v == Some(imm as u64), "sequence leaves the requested constant in rd");
 });
 crate::vp_harness!(mov_imm_w, unwind = 66, |s| {
     let (d, qd) = reg(s); let imm = s.i32();
@@ -1500,7 +1500,7 @@ crate::vp_harness!(mov_imm_w, unwind = 66, |s| {
     crate::vp_note!("{} value {:x?} want {:x}", words_note(&code), v, imm as u32);
     crate::vp_check!(code.len() % 4 == 0 && n >= 1 && n <= 2, "one or two instruction words");
     crate::vp_check!(qd != R::Sp, "a wide move cannot target SP");
-    crate::vp_check!(v == Some(imm as u32 as u64), "the move-wide sequence leaves the requested 32-bit constant in rd");
+    crate::vp_check!(v == Some(imm as u32 as u64), "sequence leaves the requested constant in rd");
 });
 
 /// ldr_mem_* / str_mem_*(rt, [base, #offset], scratch): access `size` bytes at base + offset.
@@ -1523,7 +1523,7 @@ pub fn chk_mem_helper(code: &[u8], load: bool, size: u8, sf: u8, rt: R, base: R,
         let want = q_memreg(if load { Op::LdrReg } else { Op::StrReg }, size, sf, rt, base, scratch, 3, 0);
         last == want && v == Some(off as u64)
     };
-    crate::vp_check!(ok, "the emitted sequence accesses [base + offset] with the requested register and size");
+    crate::vp_check!(ok, "sequence accesses base+offset as requested");
 }
 /// a scratch register: a general register x0..x30 distinct from the base (and, for stores, from the
 /// stored register) -- the calling convention of every scratch parameter ("distinct registers").
